@@ -1,12 +1,37 @@
 /-
   WS.Props.C03 — delivery is independent of transport segmentation and survives receive timeouts.
 -/
-import WS.Model.Conn
+import WS.Lemmas.Stream
 namespace WS.Props.C03
-open WS WS.Model
+open WS WS.Model WS.Spec WS.Lemmas.RecvStrict WS.Lemmas.Parser WS.Lemmas.Stream
 
 /-- a read on a released connection (`self.sock is None`) raises CLOSED and touches nothing. -/
 theorem sockRecv_released (c : Conn) (n : Nat) (h : c.hasSock = false) : c.sockRecv n = (.error .closed, c) := by
   simp [Conn.sockRecv, h]
+
+/-- **C03_recv_strict** — `recv_strict(n)` over ANY chunking: when at least `n` bytes are pending it returns
+    exactly the next `n` pending bytes and removes exactly those — no byte lost, duplicated or reordered,
+    whatever the chunk boundaries (down to single bytes). -/
+theorem C03_recv_strict (c : Conn) (n : Nat) (hl : Live c) (hch : Chunks c.sock.inp) (hav : n ≤ (pending c).length) :
+    ∃ c', c.recvStrict n = (.ok ((pending c).take n), c') ∧ pending c' = (pending c).drop n :=
+  let ⟨c', h, hp, _⟩ := recvStrict_avail c n hl hch hav
+  ⟨c', h, hp⟩
+
+/-- **C03_segmentation** — what successive `recv_frame` calls report is a function of the bytes the server
+    sent, not of how the transport delivers them: two connections (same validation setting) whose pending
+    bytes are EQUAL — however differently they are split between the parser's buffer and any number of
+    transport chunks — report identical outcomes for every complete frame in the stream, and are left with
+    identical pending bytes. -/
+theorem C03_segmentation (ws : List WireFrame) (c₁ c₂ : Conn) (tail : Bytes)
+    (hl₁ : Live c₁) (hch₁ : Chunks c₁.sock.inp) (hclr₁ : Cleared c₁)
+    (hl₂ : Live c₂) (hch₂ : Chunks c₂.sock.inp) (hclr₂ : Cleared c₂)
+    (hbytes : pending c₁ = pending c₂) (hskip : c₁.skipUtf8 = c₂.skipUtf8)
+    (hd : DecodesTo (pending c₁) ws tail) :
+    (recvFrames ws.length c₁).1 = (recvFrames ws.length c₂).1 ∧
+    pending (recvFrames ws.length c₁).2 = pending (recvFrames ws.length c₂).2 := by
+  obtain ⟨a, ha, pa, _, _⟩ := recvFrames_decodes ws c₁ tail hl₁ hch₁ hclr₁ hd
+  obtain ⟨b, hb, pb, _, _⟩ := recvFrames_decodes ws c₂ tail hl₂ hch₂ hclr₂ (hbytes ▸ hd)
+  rw [ha, hb, hskip]
+  exact ⟨rfl, pa.trans pb.symm⟩
 
 end WS.Props.C03
